@@ -214,3 +214,26 @@ def sequence_order(ctx, fx, files, rule="R-SEQ"):
                               bad[2], bad[1])
     ctx.instance(rule + ".sequence_apis", n)
     return n
+
+
+def forbidden_in(ctx, fn, pat, rule, what, depth=2):
+    """who-may-call: `fn` (and crate-local callees, `depth` levels) contains no call matching pat"""
+    hits = []
+
+    def walk(f, d, seen):
+        rx = re.compile(pat)
+        for b, c in f.calls():
+            if rx.search(c["f"]) or (c.get("st") and rx.search(c["st"])):
+                hits.append((f.id, c["f"], c["ln"]))
+            elif d < depth and c.get("loc") and FX is not None and FX.has(c["f"]) and c["f"] not in seen:
+                seen.add(c["f"])
+                walk(Fn(FX.raw(c["f"])), d + 1, seen)
+    walk(fn, 0, {fn.id})
+    ok = not hits
+    ctx.obligation(rule, fn.id, what, ok, sample={"fn": fn.id, "forbidden": pat, "found": hits[:3]})
+    if not ok:
+        ctx.violation(rule, fn.id, what,
+                      "%s reaches %s (line %s, in %s): %s" % (fn.id.rsplit("::", 1)[-1], hits[0][1].rsplit("::", 2)[-2] + "::" +
+                                                                 hits[0][1].rsplit("::", 1)[-1], hits[0][2], hits[0][0].rsplit("::", 1)[-1], what),
+                      fn.file, hits[0][2])
+    return 1
